@@ -21,6 +21,7 @@ type halfPipe struct {
 	chunk   int   // max bytes per Read (0 = unlimited)
 	stall   bool  // writes block forever (zero receive window) until closed
 	maxBuf  int   // when >0, writes block while len(buf) >= maxBuf
+	hook    func() // called at the start of every Write (schedule perturbation)
 }
 
 func newHalf() *halfPipe {
@@ -33,6 +34,9 @@ var errPipeClosed = errors.New("memconn: use of closed connection")
 var errPipeFail = errors.New("memconn: transport failure")
 
 func (h *halfPipe) Write(p []byte) (int, error) {
+	if h.hook != nil {
+		h.hook()
+	}
 	h.mu.Lock()
 	defer h.mu.Unlock()
 	for (h.stall || (h.maxBuf > 0 && len(h.buf) >= h.maxBuf)) && !h.rclosed && !h.wclosed {
